@@ -1,6 +1,7 @@
 import SqlDt.Translated
 import SqlDt.Lemmas.TrAttr
 import SqlDt.Lemmas.Div
+import SqlDt.Model.Parse
 set_option linter.unusedVariables false
 set_option linter.unusedSimpArgs false
 namespace SqlDt.TrEq
@@ -269,9 +270,13 @@ macro "tr_auto" : tactic => `(tactic| (
 
 @[tr_eq] theorem Date.and_zero_time_eq (d : Int) :
     Tr.Date.and_zero_time d = Timestamp.new d 0 := by
-  unfold Tr.Date.and_zero_time
-  simp only [Time.from_hms_unchecked_eq, Time.fromHmsUnchecked]
-  tr_auto
+  -- (an UNTRANSLATED alias of the model is closed by the first alternative)
+  first
+  | (unfold Tr.Date.and_zero_time; with_reducible rfl)
+  | (
+    unfold Tr.Date.and_zero_time
+    simp only [Time.from_hms_unchecked_eq, Time.fromHmsUnchecked]
+    tr_auto)
 
 @[tr_eq] theorem Date.and_time_eq (d t : Int) :
     Tr.Date.and_time d t = Timestamp.new d t := by
@@ -480,20 +485,28 @@ theorem extract_month_range (d : Int) : 1 ≤ (Date.extract d).2.1 ∧ (Date.ext
 
 @[tr_eq] theorem Date.add_interval_ym_internal_eq (d i : Int) (h0 : -2440588 ≤ d) (h1 : d ≤ 2145043059) :
     Tr.Date.add_interval_ym_internal d i = Date.addIntervalYmInternal d i := by
-  unfold Tr.Date.add_interval_ym_internal
-  rw [Date.extract_eq d h0 h1, addIntervalYmInternal_proj]
-  have hm := extract_month_range d
-  generalize Date.extract d = e at *
-  obtain ⟨y, m, dd⟩ := e
-  unfold Date.monthCarry
-  tr_auto
+  -- (an UNTRANSLATED alias of the model is closed by the first alternative)
+  first
+  | (unfold Tr.Date.add_interval_ym_internal; with_reducible rfl)
+  | (
+    unfold Tr.Date.add_interval_ym_internal
+    rw [Date.extract_eq d h0 h1, addIntervalYmInternal_proj]
+    have hm := extract_month_range d
+    generalize Date.extract d = e at *
+    obtain ⟨y, m, dd⟩ := e
+    unfold Date.monthCarry
+    tr_auto)
 
 @[tr_eq] theorem Timestamp.add_interval_ym_eq (ts i : Int) (h0 : -210866803200000000 ≤ ts)
     (h1 : ts ≤ 9223372036854775807) :
     Tr.Timestamp.add_interval_ym ts i = Timestamp.addIntervalYm ts i := by
-  unfold Tr.Timestamp.add_interval_ym Timestamp.addIntervalYm
-  rw [Timestamp.extract_eq ts (by omega) h1, SqlDt.Timestamp.extract_eq]
-  tr_auto
+  -- (an UNTRANSLATED alias of the model is closed by the first alternative)
+  first
+  | (unfold Tr.Timestamp.add_interval_ym; with_reducible rfl)
+  | (
+    unfold Tr.Timestamp.add_interval_ym Timestamp.addIntervalYm
+    rw [Timestamp.extract_eq ts (by omega) h1, SqlDt.Timestamp.extract_eq]
+    tr_auto)
 
 @[tr_eq] theorem Timestamp.sub_interval_ym_eq (ts i : Int) (h0 : -210866803200000000 ≤ ts)
     (h1 : ts ≤ 9223372036854775807) :
@@ -532,22 +545,30 @@ theorem extract_day_range (d : Int) (h0 : -2440588 ≤ d) : 0 ≤ (Date.extract 
 
 @[tr_eq] theorem Date.last_day_of_month_eq (d : Int) (h0 : -2440588 ≤ d) (h1 : d ≤ 2145043059) :
     Tr.Date.last_day_of_month d = Date.lastDayOfMonth d := by
-  unfold Tr.Date.last_day_of_month Date.lastDayOfMonth
-  rw [Date.extract_eq d h0 h1]
-  have hd := extract_day_range d h0
-  generalize Date.extract d = e at *
-  obtain ⟨y, m, dd⟩ := e
-  have hr := daysOfMonth_range y m
-  tr_auto
+  -- (an UNTRANSLATED alias of the model is closed by the first alternative)
+  first
+  | (unfold Tr.Date.last_day_of_month; with_reducible rfl)
+  | (
+    unfold Tr.Date.last_day_of_month Date.lastDayOfMonth
+    rw [Date.extract_eq d h0 h1]
+    have hd := extract_day_range d h0
+    generalize Date.extract d = e at *
+    obtain ⟨y, m, dd⟩ := e
+    have hr := daysOfMonth_range y m
+    tr_auto)
 
 @[tr_eq] theorem Timestamp.last_day_of_month_eq (ts : Int) (h0 : -210866803200000000 ≤ ts)
     (h1 : ts ≤ 9223372036854775807) :
     Tr.Timestamp.last_day_of_month ts = Timestamp.lastDayOfMonth ts := by
-  unfold Tr.Timestamp.last_day_of_month Timestamp.lastDayOfMonth
-  rw [Timestamp.extract_eq ts (by omega) h1, SqlDt.Timestamp.extract_eq]
-  dsimp only
-  rw [Date.extract_eq _ (by omega) (by omega)]
-  tr_auto
+  -- (an UNTRANSLATED alias of the model is closed by the first alternative)
+  first
+  | (unfold Tr.Timestamp.last_day_of_month; with_reducible rfl)
+  | (
+    unfold Tr.Timestamp.last_day_of_month Timestamp.lastDayOfMonth
+    rw [Timestamp.extract_eq ts (by omega) h1, SqlDt.Timestamp.extract_eq]
+    dsimp only
+    rw [Date.extract_eq _ (by omega) (by omega)]
+    tr_auto)
 
 /-! ## `Trunc for Timestamp` (day, hour, minute) -/
 
@@ -649,16 +670,20 @@ theorem extract_day_range (d : Int) (h0 : -2440588 ≤ d) : 0 ≤ (Date.extract 
 
 @[tr_eq] theorem OracleDate.add_days_eq (od : Int) (x : F64) :
     Tr.OracleDate.add_days od x = OracleDate.addDays od x := by
-  unfold Tr.OracleDate.add_days OracleDate.addDays OracleDate.roundToSecond
-  simp only [bind, Except.bind, pure, Except.pure, tr_eq]
-  -- the float computation is the same term on both sides: name its result and look at the integer rounding
-  generalize Timestamp.addDays od x = y
-  cases y with
-  | error e => rfl
-  | ok v =>
-    dsimp only
-    -- `Ok(f(a)?)` against `f(b)`: in both cases of `f(a)` it remains to show `a = b`, an integer goal
-    split <;> (rename_i heq; rw [← heq]; apply congrArg; tr_auto)
+  -- (an UNTRANSLATED alias of the model is closed by the first alternative)
+  first
+  | (unfold Tr.OracleDate.add_days; with_reducible rfl)
+  | (
+    unfold Tr.OracleDate.add_days OracleDate.addDays OracleDate.roundToSecond
+    simp only [bind, Except.bind, pure, Except.pure, tr_eq]
+    -- the float computation is the same term on both sides: name its result and look at the integer rounding
+    generalize Timestamp.addDays od x = y
+    cases y with
+    | error e => rfl
+    | ok v =>
+      dsimp only
+      -- `Ok(f(a)?)` against `f(b)`: in both cases of `f(a)` it remains to show `a = b`, an integer goal
+      split <;> (rename_i heq; rw [← heq]; apply congrArg; tr_auto))
 
 @[tr_eq] theorem OracleDate.sub_days_eq (od : Int) (x : F64) :
     Tr.OracleDate.sub_days od x = OracleDate.subDays od x := by
@@ -679,5 +704,141 @@ theorem extract_day_range (d : Int) (h0 : -2440588 ≤ d) : 0 ≤ (Date.extract 
     Tr.Timestamp.oracle_sub_days ts x = OracleDate.subDays (OracleDate.fromTimestamp ts) x := by
   unfold Tr.Timestamp.oracle_sub_days
   tr_auto
+
+/-! ## The conversion layer `format::NaiveDateTime` (phase 4): the struct is the model's structure `NDT` -/
+
+@[tr_eq] theorem NDT.new_eq : Tr.NDT.new = ({} : NDT) := rfl
+
+/-- for an hour of the day (the documented refactoring `(hour + 11) % 12 + 1` agrees with the `match` only up to 24) -/
+@[tr_eq] theorem NDT.hour12_eq (dt : NDT) (hh0 : 0 ≤ dt.hour) (hh1 : dt.hour ≤ 23) :
+    Tr.NDT.hour12 dt = NDT.hour12 dt := by
+  unfold Tr.NDT.hour12 NDT.hour12
+  tr_auto
+
+@[tr_eq] theorem NDT.adjust_hour12_eq (dt : NDT) :
+    Tr.NDT.adjust_hour12 dt = NDT.adjustHour12 dt := by
+  unfold Tr.NDT.adjust_hour12 NDT.adjustHour12
+  tr_auto
+
+@[tr_eq] theorem NDT.of_date_eq (d : Int) (h0 : -2440588 ≤ d) (h1 : d ≤ 2145043059) :
+    Tr.NDT.of_date d = NDT.ofDate d := by
+  unfold Tr.NDT.of_date NDT.ofDate
+  tr_auto
+
+@[tr_eq] theorem NDT.of_time_eq (t : Int) (ht0 : 0 ≤ t) (ht1 : t ≤ 9223372036854775807) :
+    Tr.NDT.of_time t = NDT.ofTime t := by
+  unfold Tr.NDT.of_time NDT.ofTime
+  tr_auto
+
+@[tr_eq] theorem NDT.of_timestamp_eq (ts : Int) (hts0 : -210866803200000000 ≤ ts) (hts1 : ts ≤ 9223372036854775807) :
+    Tr.NDT.of_timestamp ts = NDT.ofTimestamp ts := by
+  unfold Tr.NDT.of_timestamp NDT.ofTimestamp
+  tr_auto
+
+@[tr_eq] theorem NDT.of_interval_ym_eq (v : Int) (hv0 : -2147483648 ≤ v) (hv1 : v ≤ 2147483647) :
+    Tr.NDT.of_interval_ym v = NDT.ofIntervalYM v := by
+  unfold Tr.NDT.of_interval_ym NDT.ofIntervalYM
+  tr_auto
+
+@[tr_eq] theorem NDT.of_interval_dt_eq (v : Int) (hv0 : -9223372036854775808 ≤ v) (hv1 : v ≤ 9223372036854775807) :
+    Tr.NDT.of_interval_dt v = NDT.ofIntervalDT v := by
+  unfold Tr.NDT.of_interval_dt NDT.ofIntervalDT
+  tr_auto
+
+@[tr_eq] theorem NDT.of_oracle_date_eq (ts : Int) (hts0 : -210866803200000000 ≤ ts) (hts1 : ts ≤ 9223372036854775807) :
+    Tr.NDT.of_oracle_date ts = NDT.ofTimestamp ts := by
+  unfold Tr.NDT.of_oracle_date NDT.ofTimestamp
+  tr_auto
+
+@[tr_eq] theorem Date.try_from_ndt_ref_eq (dt : NDT) :
+    Tr.Date.try_from_ndt_ref dt = Parser.tryFromNDT .D dt := by
+  unfold Tr.Date.try_from_ndt_ref
+  try simp (disch := omega) only [tr_eq]
+  try simp only [Parser.tryFromNDT]
+  first | done | tr_auto
+
+@[tr_eq] theorem Date.try_from_ndt_eq (dt : NDT) :
+    Tr.Date.try_from_ndt dt = Parser.tryFromNDT .D dt := by
+  unfold Tr.Date.try_from_ndt
+  try simp (disch := omega) only [tr_eq]
+  try simp only [Parser.tryFromNDT]
+  first | done | tr_auto
+
+@[tr_eq] theorem Time.try_from_ndt_ref_eq (dt : NDT) :
+    Tr.Time.try_from_ndt_ref dt = Parser.tryFromNDT .T dt := by
+  unfold Tr.Time.try_from_ndt_ref
+  try simp (disch := omega) only [tr_eq]
+  try simp only [Parser.tryFromNDT]
+  first | done | tr_auto
+
+@[tr_eq] theorem Time.try_from_ndt_eq (dt : NDT) :
+    Tr.Time.try_from_ndt dt = Parser.tryFromNDT .T dt := by
+  unfold Tr.Time.try_from_ndt
+  try simp (disch := omega) only [tr_eq]
+  try simp only [Parser.tryFromNDT]
+  first | done | tr_auto
+
+/-- what an accepted `validate_ymd` tells about the fields (needed to cite `date2julian_eq`) -/
+theorem validateYmd_ok (y m d : Int) (u : Unit) (h : Date.validateYmd y m d = .ok u) :
+    1 ≤ m ∧ m ≤ 12 ∧ 1 ≤ d ∧ d ≤ 31 := by
+  unfold Date.validateYmd MONTHS_PER_YEAR at h
+  split at h; · cases h
+  split at h; · cases h
+  split at h; · cases h
+  omega
+
+@[tr_eq] theorem Timestamp.try_from_ndt_eq (dt : NDT) :
+    Tr.Timestamp.try_from_ndt dt = Parser.tryFromNDT .TS dt := by
+  -- (an UNTRANSLATED alias of the model is closed by the first alternative)
+  first
+  | (unfold Tr.Timestamp.try_from_ndt; with_reducible rfl)
+  | (
+    unfold Tr.Timestamp.try_from_ndt
+    simp only [Date.validate_ymd_eq, Time.validate_hms_eq, Timestamp.try_from_usecs_eq, UNIX_EPOCH_JULIAN_eq,
+      Parser.tryFromNDT, bind, Except.bind]
+    -- the two validations are the same terms on both sides: go through their outcomes
+    cases h1 : Date.validateYmd dt.year dt.month dt.day with
+    | error e => rfl
+    | ok u =>
+      dsimp only
+      cases h2 : Time.validateHms dt.hour dt.minute dt.sec with
+      | error e => rfl
+      | ok u2 =>
+        dsimp only
+        have hv := validateYmd_ok _ _ _ _ h1
+        rw [date2julian_eq _ _ _ (by omega) (by omega) (by omega) (by omega)])
+
+@[tr_eq] theorem IntervalYM.try_from_ndt_eq (dt : NDT) (hy0 : -2147483648 ≤ dt.year) (hy1 : dt.year ≤ 2147483647) (hm0 : 0 ≤ dt.month) :
+    Tr.IntervalYM.try_from_ndt dt = Parser.tryFromNDT .YM dt := by
+  unfold Tr.IntervalYM.try_from_ndt
+  try simp (disch := omega) only [tr_eq]
+  try simp only [Parser.tryFromNDT]
+  first | done | tr_auto
+
+@[tr_eq] theorem IntervalDT.try_from_ndt_eq (dt : NDT) (hd0 : 0 ≤ dt.day) (hd1 : dt.day ≤ 4294967295) :
+    Tr.IntervalDT.try_from_ndt dt = Parser.tryFromNDT .DT dt := by
+  unfold Tr.IntervalDT.try_from_ndt
+  try simp (disch := omega) only [tr_eq]
+  try simp only [Parser.tryFromNDT]
+  first | done | tr_auto
+
+@[tr_eq] theorem OracleDate.try_from_ndt_eq (dt : NDT) :
+    Tr.OracleDate.try_from_ndt dt = Parser.tryFromNDT .OD dt := by
+  -- (an UNTRANSLATED alias of the model is closed by the first alternative)
+  first
+  | (unfold Tr.OracleDate.try_from_ndt; with_reducible rfl)
+  | (
+    unfold Tr.OracleDate.try_from_ndt
+    simp only [Timestamp.try_from_ndt_eq, OracleDate.from_timestamp_eq, Parser.tryFromNDT, bind, Except.bind, pure,
+      Except.pure]
+    cases h1 : Date.validateYmd dt.year dt.month dt.day with
+    | error e => rfl
+    | ok u =>
+      dsimp only
+      cases h2 : Time.validateHms dt.hour dt.minute dt.sec with
+      | error e => rfl
+      | ok u2 =>
+        dsimp only
+        split <;> (rename_i heq; simp only [heq]))
 
 end SqlDt.TrEq
